@@ -135,7 +135,7 @@ def x86MemLabel (s : State) (sh : MShape) (l : Nat) (disp : BitVec 32) : State Ã
     if s.arch.is32 then
       let fmt : OffsetFormat := { simpleValue .unsigned 4 with valueOffset := sh.lead.length }
       let re : Reloc := { type := .relToAbs, fmt := fmt, regionSize := sh.lead.length + 4 + sh.imm.length, srcSec := s.cur,
-                          tgtSec := none, srcOff := s.curOff, payload := disp.signExtend 64 }
+                          tgtSec := none, srcOff := s.curOff, payload := disp.signExtend 64, gl := some (l, disp.signExtend 64) }
       match le with
       | .bound lsec loff =>
         let (s1, _) := newReloc s { re with payload := re.payload + loff, tgtSec := some lsec }
